@@ -54,7 +54,7 @@ CHECKS = {
     ),
     "C17": dict(
         engine="crashwalk", category="fault_enumeration",
-        technique="exhaustive enumeration: export->import round trip of every final store of every arrival order of every blueprint within the bound, and every single-field corruption (5 replacement values per cell, row deleted/duplicated, column added/removed, header line removed) of exported files of 2, 4 and 1203 rows, each followed by two further starts on the same database; every second export finds a stale, longer intermediate CSV in the temp directory (a killed earlier export)",
+        technique="exhaustive enumeration: export->import round trip of every final store of every arrival order of every blueprint within the bound, and every single-field corruption (5 replacement values per cell, row deleted/duplicated, column added/removed, header line removed) of exported files of 2, 4, 1203 and 10051 rows (every second corrupted import with p2p.disable_checkpoints=true), each followed by two further starts on the same database; every second export finds a stale, longer intermediate CSV in the temp directory (a killed earlier export)",
         text="Exhaustive within the bound (N=3 quick / N=4 thorough stores; corruption at every row of the short chains and at the batch-boundary rows of the long one; checkpoint at the tip and mid-chain). Gzip-level corruption and Postgres are not covered. A duplicated row at/above the checkpoint yields a consistent longer chain and is not required to be refused.",
         design="§3 C17",
     ),
@@ -84,7 +84,7 @@ CHECKS = {
     ),
     "C14": dict(
         engine="domwalk", category="exploration",
-        technique="bounded-exhaustive enumeration: every message shape of the 16 kinds (element counts 0,1,2,limit and limit+1 refused; each scalar over its boundary alphabet) x 11 protocol versions (every version at which an encoding changes and its predecessor, 70013 down to 209; fields a version does not carry must come back zero, a message may be refused only below the version that introduced it) through WriteMessage/ReadMessage (round trip + byte-identical re-encoding); for every seed frame with <=2 elements every single-bit flip (inside the command field: refused unless a known command results), every truncation, 8 length-field values, every payload bit flip / truncation / varint splice at every position with recomputed checksum, splices between every ordered pair of kinds at every cut, wrong magic, bad checksum, unknown and invalid-UTF-8 command; oracle: no panic, bounded reads, allocation <= payload limit + slack, the four rejection classes return errors; a decoder that kills the process is caught through a per-case progress file",
+        technique="bounded-exhaustive enumeration: every message shape of the 16 kinds (element counts 0,1,2,limit and limit+1 refused; each scalar over its boundary alphabet) x 11 protocol versions (every version at which an encoding changes and its predecessor, 70013 down to 209; fields a version does not carry must come back zero, a message may be refused only below the version that introduced it) through WriteMessage/ReadMessage (round trip + byte-identical re-encoding); for every seed frame with <=2 elements every single-bit flip (inside the command field: refused unless a known command results), every truncation, 8 length-field values, every payload bit flip / truncation / varint splice at every position with recomputed checksum, splices between every ordered pair of kinds at every cut, wrong magic, bad checksum, unknown and invalid-UTF-8 command; oracle: no panic, bounded reads, allocation <= payload limit + slack, the rejection classes return errors (wrong magic also with 7 length-field values up to 2^32-1); every ordered pair of 40 seed frames is decoded interleaved at field-read granularity; a decoder still reading after 2 million reads is stopped and reported; a decoder that kills the process is caught through a per-case progress file",
         text="Complete within the stated shape and mutation alphabets (about 330 000 decodes per quick run; the thorough tier adds every value of every payload byte, every pair of payload bit flips for payloads up to 96 bytes and splices at every pair of cuts, 8 million decodes); raw random bytes are sampling and are not done. The allocation bound is checked under wire.SetLimits(1 MB).",
         design="§3 C14",
     ),
@@ -116,14 +116,14 @@ CHECKS = {
     ),
     "C15": dict(
         engine="schedwalk",
-        technique="stateless model checking of the implementation under a harness-controlled scheduler: threads (2 concurrent Chains.Add, optionally a reader) run only when the explorer opens their gate; scheduling points = entries of repository.Headers methods; DFS by replay over all schedules (unbounded for 2 threads with global-state memoisation: store digest + per-thread progress and read history; preemption bound 2 with a reader); lock-aware (a thread waiting for a lock held by a parked thread is disabled, found through goroutine wait reasons); invariant (structural validity, reader-observed tips) at every scheduling point, final store = some sequential order (all columns); plus a separate free-running -race pass of the netwalk rig with API readers during peer churn (a detector, reported as such)",
+        technique="stateless model checking of the implementation under a harness-controlled scheduler: threads (2 concurrent Chains.Add, optionally a reader) run only when the explorer opens their gate; scheduling points = entries of repository.Headers methods; DFS by replay over all schedules (unbounded for 2 threads with global-state memoisation: store digest + per-thread progress and read history; preemption bound 2 with a reader); lock-aware (a thread waiting for a lock held by a parked thread is disabled, found through goroutine wait reasons); invariant (structural validity, reader-observed tips) at every scheduling point, final store = some sequential order (all columns); plus a separate free-running -race pass of the netwalk rig (pooled database connections, a second header source, API readers whose reads are checked, peer churn, a watchdog that dumps goroutines after two minutes without progress and classifies service goroutines waiting for a lock as a deadlock) - a detector, reported as such",
         text="Exhaustive for every blueprint N=3 |W|=2 x every pair of submissions (incl. the same header twice) x third node stored before/absent (3600 scenarios). Interleavings inside one SQL statement are SQLite's. The race pass samples schedules.",
         design="§3 C15, §2 E4",
         note="Trusted: the cooperative scheduler's determinism guard (a replayed prefix that offers fewer choices is a harness error), goroutine wait reasons from runtime.Stack for lock detection, Go's race detector for the free-running pass.",
     ),
     "C11": dict(
         engine="schedwalk",
-        technique="stateless model checking under a controlled scheduler inside testing/synctest bubbles: threads = the submitter (one scheduling point per submission) and one delivery goroutine per (event, channel) spawned by the real notification.Notifier (one scheduling point at its start; quiescence = synctest.Wait); channels = the real WebhooksService over the SQL repository with a scripted client, the real websocket channel with a recording publisher that keeps the published slice like a broker does, a recording channel; per-channel behaviour {ok, error, never returns}; DFS by replay over all schedules with global-state memoisation (histories of length 1-2) / preemption bound 1 (length 3); oracle: per channel exactly one event per stored header with all nine fields equal to the stored header (and the published bytes unchanged at the end of the execution), none for duplicate / forbidden / failed submissions, the submitter finishes in every schedule",
+        technique="stateless model checking under a controlled scheduler inside testing/synctest bubbles: threads = the submitter (one scheduling point per submission) and one delivery goroutine per (event, channel) spawned by the real notification.Notifier (one scheduling point at its start; quiescence = synctest.Wait); channels = the real WebhooksService over the SQL repository with a scripted client, the real websocket channel with a recording publisher that keeps the published slice like a broker does, a recording channel; per-channel behaviour {ok, error, never returns}; DFS by replay over all schedules with global-state memoisation (histories of length 1-2) / preemption bound 1 (length 3); oracle: per channel exactly one event per stored header with all nine fields equal to the stored header (and the published bytes unchanged at the end of the execution), none for duplicate / forbidden / failed submissions (failure injected at the insert, the tip lookup or the state switch), the submitter finishes in every schedule",
         text="Exhaustive: 30 histories x 27 behaviour combinations (all schedules) + 5 longer histories x 27 (bounded). Three 40-header histories with one channel never returning (one schedule each) guard against bounded delivery pools. A real centrifuge client subscription is not part of the check (the publisher seam is the node's Publish).",
         design="§3 C11",
         note="Trusted: testing/synctest quiescence; the scripted sinks. The insert failure is injected by a decorator on repository.Headers for one hash.",
